@@ -112,7 +112,9 @@ impl StateMachine<'_> {
 
     #[inline]
     fn test_diff_header_plus_line(&self) -> bool {
-        (matches!(self.state, State::DiffHeader(_)) || self.source == Source::DiffUnified)
+        // A `+++ ` header line always follows a `--- ` header line, which has set the state
+        // (also for plain `diff -u` output): an added line whose text begins with "++ " is not one.
+        matches!(self.state, State::DiffHeader(_))
             && (self.line.starts_with("+++ ")
                 || self.line.starts_with("rename to ")
                 || self.line.starts_with("copy to "))
